@@ -59,7 +59,7 @@ func run(c *lib.Ctx) error {
 	}
 	c.Set("rule", "a case is one function (AST over tmp/set/defer/with/loop/call/try/exit); distinct by its rendered Elvish text; non-trivial = contains at least one tmp, with or defer")
 	size := c.Pick(2, 3)
-	c.Set("bounds", map[string]any{"MaxSize_nodes_exhaustive": size, "random_programs": c.Pick(300, 6000), "random_size": "4..16 nodes, nesting <= 5"})
+	c.Set("bounds", map[string]any{"MaxSize_nodes_exhaustive": size, "random_programs": c.Pick(500, 6000), "random_size": "4..16 nodes, nesting <= 5"})
 
 	// ---- M + G
 	r, err := c.TLC("MCCleanup", lib.TLCRun{Dir: dir, Module: "MCCleanup", Workers: 4, Timeout: 12 * time.Minute, HeapGB: 6,
@@ -93,7 +93,7 @@ func run(c *lib.Ctx) error {
 	}
 	var mu sync.Mutex
 	tagged := 0
-	lib.Parallel(len(cases), 6, func(i int) {
+	lib.Parallel(len(cases), 4, func(i int) {
 		gc := cases[i]
 		got := Execute(gc.Prog)
 		c.AddEvals(1)
@@ -124,11 +124,11 @@ func run(c *lib.Ctx) error {
 	progs = append(progs, Directed()...)
 	nd := len(progs)
 	rng := newRand(c.Seed)
-	for i := 0; i < c.Pick(300, 6000); i++ {
+	for i := 0; i < c.Pick(500, 6000); i++ {
 		progs = append(progs, Label(RandomProg(rng)))
 	}
 	vc := make([]vCase, len(progs))
-	lib.Parallel(len(progs), 6, func(i int) {
+	lib.Parallel(len(progs), 4, func(i int) {
 		got := Execute(progs[i])
 		c.AddEvals(1)
 		if nontrivial(progs[i]) {
@@ -149,7 +149,7 @@ func run(c *lib.Ctx) error {
 }
 
 func judge(c *lib.Ctx, dir string, vc []vCase) error {
-	bad, err := lib.Judge(c, "JudgeCleanup", dir, "JudgeCleanup", vc, 6, 12*time.Minute)
+	bad, err := lib.Judge(c, "JudgeCleanup", dir, "JudgeCleanup", vc, 4, 12*time.Minute)
 	if err != nil {
 		return err
 	}
